@@ -1,5 +1,5 @@
 /-
-M13 (part): the run life-cycle of one engine in the aggregator and the two tables it writes per run.
+M13 (part): the run life-cycle of the engines known to the aggregator and the two tables it writes per run.
 
 Python (openpectus/aggregator):
   aggregator_message_handlers.py  handle_RegisterEngineMsg / validate_msg / handle_RunStartedMsg /
@@ -10,34 +10,42 @@ Python (openpectus/aggregator):
                                   RecentEngineRepository.store_recent_engine / get_recent_engine_by_engine_id
 
 The database is modelled as append-only row lists with exactly the queries used:
-  plotLogs    = PlotLogs.run_id in insertion order
-  recentRuns  = RecentRuns.run_id in insertion order
-  recentEngineRun = the RecentEngines row of this engine id (unique column): none = no row, some r = row.run_id = r
+  plotLogs    = PlotLogs (engine_id, run_id) in insertion order
+  recentRuns  = RecentRuns (engine_id, run_id) in insertion order
+  eng e       = the `_engine_data_map` entry of engine id `e` (registered / run_data.run_id) and that engine's
+                RecentEngines row (unique engine_id column): none = no row, some r = row.run_id = r
 
 `guarded = true` is the code with fixes/C30-one-record-per-run.diff applied (create_plot_log and store_recent_run
 first look the run id up and do nothing when a row exists); `guarded = false` is the code before that repair.
 
-Abstractions: one engine id (messages for other ids touch other map entries and other RecentEngines rows; rows
-are keyed by run id, run ids are uuid4 of the engine); the registration is the accepted path (secret ok, no
+Abstractions: engine ids are naturals (any number of engines; the guards and the property look at the run_id column
+only, run ids are uuid4 of the engine — a run id reused by another engine is merged, see Properties/C30); the registration is the accepted path (secret ok, no
 websocket connected under that id, version ok); database writes succeed; everything else a run carries (run log,
 method, contributors, tag values) is not modelled here.  Run ids are naturals (first-occurrence ordinals).
 Core Lean only.
 -/
 namespace OPM.RunRecords
 
-structure State where
+/-- per engine id: the entry of `aggregator._engine_data_map` and the engine's RecentEngines row -/
+structure Engine where
   registered : Bool := false           -- engine_id ∈ aggregator._engine_data_map
   run : Option Nat := none             -- engine_data.run_data.run_id   (has_run() = run.isSome)
-  recentEngineRun : Option (Option Nat) := none
-  plotLogs : List Nat := []
-  recentRuns : List Nat := []
+  recentEngineRun : Option (Option Nat) := none   -- RecentEngines row: none = no row, some r = row.run_id = r
 deriving Repr, DecidableEq
 
+/-- a PlotLogs / RecentRuns row: (engine id column, run id column) -/
+abbrev Row := Nat × Nat
+
+structure State where
+  eng : Nat → Engine := fun _ => {}
+  plotLogs : List Row := []
+  recentRuns : List Row := []
+
 inductive Op where
-  | register
-  | disconnect
-  | start (runId : Nat)       -- RunStartedMsg
-  | stop (runId : Nat)        -- RunStoppedMsg
+  | register (e : Nat)
+  | disconnect (e : Nat)
+  | start (e : Nat) (runId : Nat)       -- RunStartedMsg
+  | stop (e : Nat) (runId : Nat)        -- RunStoppedMsg
 deriving Repr, DecidableEq
 
 inductive Reply where
@@ -47,42 +55,55 @@ deriving Repr, DecidableEq
 
 def init : State := {}
 
-/-- `PlotLogRepository.create_plot_log(engine_data, run_id)` -/
-def createPlotLog (guarded : Bool) (s : State) (r : Nat) : State :=
-  if guarded && s.plotLogs.contains r then s else { s with plotLogs := s.plotLogs ++ [r] }
+/-- the run_id column -/
+def runIds (rows : List Row) : List Nat := rows.map (·.2)
 
-/-- `RecentRunRepository.store_recent_run(engine_data)` for the current run `r` -/
-def storeRecentRun (guarded : Bool) (s : State) (r : Nat) : State :=
-  if guarded && s.recentRuns.contains r then s else { s with recentRuns := s.recentRuns ++ [r] }
+def setEng (s : State) (e : Nat) (E : Engine) : State :=
+  { s with eng := fun x => if x = e then E else s.eng x }
+
+/-- `PlotLogRepository.create_plot_log(engine_data, run_id)`; the guard looks at the run id only -/
+def createPlotLog (guarded : Bool) (s : State) (e r : Nat) : State :=
+  if guarded && (runIds s.plotLogs).contains r then s else { s with plotLogs := s.plotLogs ++ [(e, r)] }
+
+/-- `RecentRunRepository.store_recent_run(engine_data)` for the current run `r` (`get_by_run_id` guard) -/
+def storeRecentRun (guarded : Bool) (s : State) (e r : Nat) : State :=
+  if guarded && (runIds s.recentRuns).contains r then s else { s with recentRuns := s.recentRuns ++ [(e, r)] }
+
+/-- `_try_restore_reconnected_engine_data`: the run id of the engine's RecentEngines row, if it has one -/
+def restoredRun (E : Engine) : Option Nat :=
+  match E.recentEngineRun with
+  | some (some r) => some r
+  | _ => none
 
 def step (guarded : Bool) (s : State) : Op → State × Reply
-  | .register =>
+  | .register e =>
     -- handle_RegisterEngineMsg: `if not has_registered_engine_id: register_engine_data(EngineData(...))`,
     -- which restores run_data from the RecentEngines row when that row has a run_id
-    if s.registered then (s, .ok)
+    let E := s.eng e
+    if E.registered then (s, .ok)
     else
-      let restored := match s.recentEngineRun with
-        | some (some r) => some r
-        | _ => none
-      ({ s with registered := true, run := restored }, .ok)
-  | .disconnect =>
+      (setEng s e { E with registered := true, run := restoredRun E }, .ok)
+  | .disconnect e =>
     -- engine_disconnected: store_recent_engine (run_id of the active run or None), delete the map entry
-    if s.registered then ({ s with registered := false, run := none, recentEngineRun := some s.run }, .ok)
+    let E := s.eng e
+    if E.registered then (setEng s e { E with registered := false, run := none, recentEngineRun := some E.run }, .ok)
     else (s, .ok)
-  | .start r =>
-    if !s.registered then (s, .notRegistered)
+  | .start e r =>
+    let E := s.eng e
+    if !E.registered then (s, .notRegistered)
     else
-      let s₁ := match s.run with
-        | none => { s with run := some r }
+      let s₁ := match E.run with
+        | none => setEng s e { E with run := some r }
         | some q =>
-          if q = r then s                                        -- "be idempotent and just accept this duplicate"
-          else { storeRecentRun guarded s q with run := some r } -- stop the existing run, store it, start the new one
-      (createPlotLog guarded s₁ r, .ok)                          -- reached from all three branches
-  | .stop _ =>
-    if !s.registered then (s, .notRegistered)
-    else match s.run with
-      | none => (s, .ok)                                         -- "No engine run_data available on run_stopped"
-      | some q => ({ storeRecentRun guarded s q with run := none }, .ok)  -- both the matching and the mismatching id branch
+          if q = r then s                                   -- "be idempotent and just accept this duplicate"
+          else setEng (storeRecentRun guarded s e q) e { E with run := some r }  -- store the existing run, start the new one
+      (createPlotLog guarded s₁ e r, .ok)                   -- reached from all three branches
+  | .stop e _ =>
+    let E := s.eng e
+    if !E.registered then (s, .notRegistered)               -- validate_msg
+    else match E.run with                                    -- matching and mismatching id: both store the active run
+      | none => (s, .ok)                                    -- "No engine run_data available on run_stopped"
+      | some q => (setEng (storeRecentRun guarded s e q) e { E with run := none }, .ok)
 
 def run (guarded : Bool) (s : State) (ops : List Op) : State :=
   ops.foldl (fun s op => (step guarded s op).1) s
